@@ -1,7 +1,7 @@
 (* C06, final step: instantiate the section hypotheses of ReachCore.step_reach_core with the
    preservation lemmas of C01 (Proofs/WfProofs.v) and C02 (Proofs/ChainProofs.v). *)
 From StgV Require Import Model.StackSpec Model.LogSpec.
-From StgV Require Proofs.WfProofs Proofs.ChainProofs.
+From StgV Require Import Proofs.WfProofs Proofs.ChainProofs.
 From StgV Require Export Proofs.ReachCore.
 
 Lemma step_reach :
@@ -11,5 +11,5 @@ Lemma step_reach :
     Inv6 w' /\ prev_decreasing (w_objs w').
 Proof.
   exact (StgV.Proofs.ReachCore.step_reach_core
-           StgV.Proofs.WfProofs.step_inv StgV.Proofs.ChainProofs.step_chain).
+           WfCmd.step_inv ChainStep.step_chain).
 Qed.
